@@ -174,7 +174,14 @@ def run(ctx):
                 ds.to_netcdf(src, encoding=enc)
                 first = xarray.open_dataset(src)
                 first.load()
-            case = {'dataset': d.spec['label'], 'time_units': units, 'offset_minutes': off, 'fill_values': fills}
+            # one record picked out with isel(record=k): the time coordinate becomes a scalar coordinate (still the time
+            # coordinate of the dataset, still to be written in the form EMS reads)
+            scalar_time = n % 5 == 3
+            if scalar_time:
+                first = first.isel(record=rng.randrange(nt))
+            case = {'dataset': d.spec['label'], 'time_units': units, 'offset_minutes': off, 'fill_values': fills,
+                    'scalar_time': scalar_time}
+            ctx.count(f'scalar_time_coordinate:{scalar_time}')
             ctx.case((d.spec['label'], units, str(fills)), True, sample=case if n < 2 else None)
             ctx.count(f'family:{d.family}')
             ctx.count(f'time_bounds:{tb}')
@@ -208,7 +215,7 @@ def run(ctx):
             variant = rng.choice(['as_read', 'as_read', 'int_time', 'override'])
             kwargs = {}
             exp_period, exp_f, exp_off = period, f, off
-            if variant == 'int_time' and period == 'days' and nt > 1:
+            if variant == 'int_time' and period == 'days' and nt > 1 and not scalar_time:
                 # integer on-disk dtype with instants the stored unit cannot represent: xarray re-bases the units on
                 # write, the rewritten attribute must follow what is in the file (only the instants are checked)
                 first[tname].encoding['dtype'] = numpy.dtype('int32')
